@@ -215,7 +215,7 @@ theorem veq_refl_aux : ∀ n : Nat, ∀ v : Val, Val.size v ≤ n → clean v = 
 theorem veq_refl_noNaN (v : Val) (h : clean v = true) : veq v v = true :=
   veq_refl_aux (Val.size v) v (Nat.le_refl _) h
 
-/-! ## symmetric (for values without structs; maps need a counting argument, not yet proved) -/
+/-! ## symmetric, first for values without structs (no hypothesis on the other operand) -/
 
 mutual
 def structFree : Val → Bool
@@ -280,6 +280,224 @@ theorem veq_symm_aux : ∀ n : Nat, ∀ a b : Val, Val.size a ≤ n → structFr
 
 theorem veq_symm_partial (a b : Val) (h : structFree a = true) : veq a b = veq b a :=
   veq_symm_aux (Val.size a) a b (Nat.le_refl _) h
+
+/-! ## symmetric for all values whose structs have distinct keys (what a `HashMap` holds) -/
+
+mutual
+def keysOk : Val → Bool
+  | .arr _ es => keysOkL es
+  | .tup es => keysOkL es
+  | .struct fs => keysOkF fs && nodupKeys fs
+  | _ => true
+def keysOkL : List Val → Bool
+  | [] => true
+  | v :: vs => keysOk v && keysOkL vs
+def keysOkF : List (String × Val) → Bool
+  | [] => true
+  | (_, v) :: fs => keysOk v && keysOkF fs
+end
+
+theorem keysOkL_mem {vs : List Val} (h : keysOkL vs = true) {x : Val} (hx : x ∈ vs) : keysOk x = true := by
+  induction vs with
+  | nil => cases hx
+  | cons v vs ih =>
+    simp only [keysOkL, Bool.and_eq_true] at h
+    rcases List.mem_cons.mp hx with rfl | hx
+    · exact h.1
+    · exact ih h.2 hx
+
+theorem keysOkF_mem {fs : List (String × Val)} (h : keysOkF fs = true) {p : String × Val} (hp : p ∈ fs) :
+    keysOk p.2 = true := by
+  induction fs with
+  | nil => cases hp
+  | cons q fs ih =>
+    obtain ⟨k, v⟩ := q
+    simp only [keysOkF, Bool.and_eq_true] at h
+    rcases List.mem_cons.mp hp with rfl | hp
+    · exact h.1
+    · exact ih h.2 hp
+
+def lookupV (k : String) : List (String × Val) → Option Val
+  | [] => none
+  | (k', v) :: fs => if k == k' then some v else lookupV k fs
+
+theorem veqField_iff (k : String) (v : Val) (fb : List (String × Val)) :
+    veqField k v fb = true ↔ ∃ w, lookupV k fb = some w ∧ veq v w = true := by
+  induction fb with
+  | nil => rw [veqField]; simp [lookupV]
+  | cons p fb ih =>
+    obtain ⟨k', w⟩ := p
+    rw [veqField]
+    simp only [lookupV]
+    by_cases hk : (k == k') = true
+    · simp [hk]
+    · simp only [hk, Bool.false_eq_true, if_false]; exact ih
+
+theorem veqF_iff (fa fb : List (String × Val)) :
+    veqF fa fb = true ↔ ∀ p ∈ fa, veqField p.1 p.2 fb = true := by
+  induction fa with
+  | nil => rw [veqF]; simp
+  | cons p fa ih =>
+    obtain ⟨k, v⟩ := p
+    rw [veqF, Bool.and_eq_true, ih]; simp
+
+theorem lookupV_mem {k : String} {fs : List (String × Val)} {v : Val} (h : lookupV k fs = some v) : (k, v) ∈ fs := by
+  induction fs with
+  | nil => simp [lookupV] at h
+  | cons p fs ih =>
+    obtain ⟨k', w⟩ := p
+    simp only [lookupV] at h
+    split at h
+    · rename_i hk
+      have : k = k' := by simpa using hk
+      cases h; subst this; simp
+    · exact List.mem_cons_of_mem _ (ih h)
+
+theorem lookupV_of_mem {k : String} {v : Val} {fs : List (String × Val)} (hn : nodupKeys fs = true)
+    (hm : (k, v) ∈ fs) : lookupV k fs = some v := by
+  induction fs with
+  | nil => cases hm
+  | cons p fs ih =>
+    obtain ⟨k', w⟩ := p
+    simp only [nodupKeys, Bool.and_eq_true, Bool.not_eq_true'] at hn
+    simp only [lookupV]
+    rcases List.mem_cons.mp hm with h | h
+    · cases h; simp
+    · have hne : (k == k') = false := by
+        cases hkk : (k == k') with
+        | false => rfl
+        | true =>
+          have : k = k' := by simpa using hkk
+          subst this
+          have : fs.any (fun p => p.1 == k) = true := by
+            rw [List.any_eq_true]; exact ⟨(k, v), h, by simp⟩
+          rw [this] at hn; exact absurd hn.1 (by simp)
+      simp [hne, ih hn.2 h]
+
+theorem keys_nodup {fs : List (String × Val)} (hn : nodupKeys fs = true) : (fs.map (·.1)).Nodup := by
+  induction fs with
+  | nil => simp
+  | cons p fs ih =>
+    obtain ⟨k, v⟩ := p
+    simp only [nodupKeys, Bool.and_eq_true, Bool.not_eq_true'] at hn
+    simp only [List.map_cons, List.nodup_cons]
+    refine ⟨?_, ih hn.2⟩
+    intro hmem
+    rw [List.mem_map] at hmem
+    obtain ⟨q, hq, hqk⟩ := hmem
+    have : fs.any (fun p => p.1 == k) = true := by
+      rw [List.any_eq_true]; exact ⟨q, hq, by simp [hqk]⟩
+    rw [this] at hn; exact absurd hn.1 (by simp)
+
+/-- two maps of the same size with distinct keys: if every key of the first is a key of the
+    second, then every key of the second is a key of the first -/
+theorem keys_pigeonhole (fa fb : List (String × Val)) (ha : nodupKeys fa = true) (hb : nodupKeys fb = true)
+    (hlen : fa.length = fb.length) (hsub : ∀ p ∈ fa, p.1 ∈ fb.map (·.1)) :
+    ∀ q ∈ fb, q.1 ∈ fa.map (·.1) := by
+  intro q hq
+  apply Classical.byContradiction
+  intro hnot
+  have hqk : q.1 ∈ fb.map (·.1) := List.mem_map.mpr ⟨q, hq, rfl⟩
+  have hsub' : fa.map (·.1) ⊆ (fb.map (·.1)).erase q.1 := by
+    intro x hx
+    have hxq : x ≠ q.1 := fun h => hnot (h ▸ hx)
+    obtain ⟨p, hp, rfl⟩ := List.mem_map.mp hx
+    exact (List.mem_erase_of_ne hxq).2 (hsub p hp)
+  have h1 := List.Nodup.length_le_of_subset (keys_nodup ha) hsub'
+  have h2 : ((fb.map (·.1)).erase q.1).length = (fb.map (·.1)).length - 1 := by
+    rw [List.length_erase]; simp [hqk]
+  have h3 : 1 ≤ (fb.map (·.1)).length := List.length_pos_of_mem hqk
+  simp only [List.length_map] at h1 h2 h3
+  omega
+
+theorem veqL_symm_both : ∀ (as bs : List Val),
+    (∀ x ∈ as, ∀ y ∈ bs, veq x y = veq y x) → veqL as bs = veqL bs as := by
+  intro as
+  induction as with
+  | nil => intro bs _; cases bs <;> simp [veqL]
+  | cons a as ih =>
+    intro bs h
+    cases bs with
+    | nil => simp [veqL]
+    | cons b bs =>
+      rw [veqL, veqL, h a List.mem_cons_self b List.mem_cons_self,
+        ih bs (fun x hx y hy => h x (List.mem_cons_of_mem _ hx) y (List.mem_cons_of_mem _ hy))]
+
+/-- one direction for maps, given symmetry on the stored values -/
+theorem veqF_flip (fa fb : List (String × Val)) (ha : nodupKeys fa = true) (hb : nodupKeys fb = true)
+    (hlen : fa.length = fb.length)
+    (hs : ∀ p ∈ fa, ∀ q ∈ fb, veq p.2 q.2 = veq q.2 p.2)
+    (h : veqF fa fb = true) : veqF fb fa = true := by
+  rw [veqF_iff] at h ⊢
+  have hsub : ∀ p ∈ fa, p.1 ∈ fb.map (·.1) := by
+    intro p hp
+    obtain ⟨w, hl, _⟩ := (veqField_iff p.1 p.2 fb).mp (h p hp)
+    exact List.mem_map.mpr ⟨(p.1, w), lookupV_mem hl, rfl⟩
+  intro q hq
+  have := keys_pigeonhole fa fb ha hb hlen hsub q hq
+  obtain ⟨p, hp, hpk⟩ := List.mem_map.mp this
+  obtain ⟨w, hl, hv⟩ := (veqField_iff p.1 p.2 fb).mp (h p hp)
+  have hq' : (p.1, q.2) ∈ fb := by rw [hpk]; exact hq
+  have hw : w = q.2 := by
+    have := lookupV_of_mem hb hq'
+    rw [hl] at this; cases this; rfl
+  subst hw
+  rw [veqField_iff]
+  refine ⟨p.2, ?_, ?_⟩
+  · rw [← hpk]; exact lookupV_of_mem ha hp
+  · rw [← hs p hp q hq]; exact hv
+
+theorem veq_symm_full_aux : ∀ n : Nat, ∀ a b : Val, Val.size a + Val.size b ≤ n → keysOk a = true → keysOk b = true →
+    veq a b = veq b a := by
+  intro n
+  induction n with
+  | zero => intro a b h; have := size_pos a; omega
+  | succ n ih =>
+    intro a b hs ka kb
+    cases a with
+    | bool x => cases b <;> simp [veq]; exact Bool.beq_comm
+    | int x => cases b <;> simp [veq]; exact Bool.beq_comm
+    | str x => cases b <;> simp [veq]; exact Bool.beq_comm
+    | unit => cases b <;> simp [veq]
+    | float x => cases b <;> simp [veq]; exact feq_symm _ _
+    | cell l t => cases b <;> simp [veq]; exact beq_comm_nat _ _
+    | fn id ps r body env self => cases b <;> simp [veq]; exact beq_comm_nat _ _
+    | arr t es =>
+      cases b <;> simp [veq]
+      rename_i t2 es2
+      simp only [keysOk] at ka kb; simp only [Val.size] at hs
+      exact veqL_symm_both es es2 (fun x hx y hy => ih x y
+        (by have := size_lt_sizeL hx; have := size_lt_sizeL hy; omega) (keysOkL_mem ka hx) (keysOkL_mem kb hy))
+    | tup es =>
+      cases b <;> simp [veq]
+      rename_i es2
+      simp only [keysOk] at ka kb; simp only [Val.size] at hs
+      exact veqL_symm_both es es2 (fun x hx y hy => ih x y
+        (by have := size_lt_sizeL hx; have := size_lt_sizeL hy; omega) (keysOkL_mem ka hx) (keysOkL_mem kb hy))
+    | struct fa =>
+      cases b <;> simp [veq]
+      rename_i fb
+      simp only [keysOk, Bool.and_eq_true] at ka kb; simp only [Val.size] at hs
+      have hsym : ∀ p ∈ fa, ∀ q ∈ fb, veq p.2 q.2 = veq q.2 p.2 := fun p hp q hq => ih p.2 q.2
+        (by have := size_lt_sizeF hp; have := size_lt_sizeF hq; omega) (keysOkF_mem ka.1 hp) (keysOkF_mem kb.1 hq)
+      have hsym' : ∀ q ∈ fb, ∀ p ∈ fa, veq q.2 p.2 = veq p.2 q.2 := fun q hq p hp => (hsym p hp q hq).symm
+      by_cases hlen : fa.length = fb.length
+      · have e1 : (fa.length == fb.length) = true := by simp [hlen]
+        have e2 : (fb.length == fa.length) = true := by simp [hlen]
+        rw [e1, e2]
+        simp only [Bool.true_and]
+        cases h1 : veqF fa fb <;> cases h2 : veqF fb fa <;> try rfl
+        · have := veqF_flip fb fa kb.2 ka.2 hlen.symm hsym' h2
+          rw [h1] at this; exact absurd this (by simp)
+        · have := veqF_flip fa fb ka.2 kb.2 hlen hsym h1
+          rw [h2] at this; exact absurd this (by simp)
+      · have e1 : (fa.length == fb.length) = false := by simp [hlen]
+        have e2 : (fb.length == fa.length) = false := by simp [Ne.symm hlen]
+        rw [e1, e2]; simp
+
+/-- **`==` is symmetric** on all values whose structs have distinct keys -/
+theorem veq_symm (a b : Val) (ha : keysOk a = true) (hb : keysOk b = true) : veq a b = veq b a :=
+  veq_symm_full_aux _ a b (Nat.le_refl _) ha hb
 
 /-! ## non-vacuity -/
 example : clean (.arr .int [.tup [.int 1, .str "a"], .struct [("k", .float 0)]]) = true := by
